@@ -36,6 +36,10 @@
 #include "celeritas/track/StatusCheckData.hh"
 #include "celeritas/track/detail/StatusCheckExecutor.hh"
 
+#include "celeritas/em/msc/detail/UrbanMscHelper.hh"
+#include "celeritas/em/msc/detail/UrbanMscMinimalStepLimit.hh"
+#include "celeritas/em/msc/detail/UrbanMscSafetyStepLimit.hh"
+
 #include "problems.hh"
 
 using namespace celeritas;
@@ -359,6 +363,52 @@ int main()
                    << phys.has_at_rest() << ' ' << seen_cut << ' '
                    << hex(seen_step);
             }
+            else if (kind == "eloss5")
+            {
+                // eloss5 <disable_integral_xs> <pid> <E> <Eset> <dep0> <value> <post class>
+                // ElossApplier{scripted} on P5: real e-/e+ with the REAL annihilation process
+                // (valid at rest) under both settings of PhysicsOptions::disable_integral_xs
+                int dix;
+                unsigned pid;
+                is >> dix >> pid;
+                real_type E = rd(is);
+                real_type Eset = rd(is);
+                real_type dep0 = rd(is);
+                real_type value = rd(is);
+                int pclass;
+                is >> pclass;
+                static std::unique_ptr<Fixture<verif::P5>> p5[2];
+                if (!p5[dix != 0])
+                {
+                    verif::ProblemConfig c;
+                    c.disable_integral_xs = (dix != 0);
+                    p5[dix != 0].reset(new Fixture<verif::P5>(c));
+                }
+                auto& fx = *p5[dix != 0];
+                auto state = fx.make_state(
+                    ParticleId{pid}, E, {0.5, 0.25, -1}, {0, 0, 1});
+                CoreTrackView track(
+                    fx.core->host_ref(), state->ref(), ThreadId{0});
+                auto particle = track.make_particle_view();
+                auto sim = track.make_sim_view();
+                auto phys = track.make_physics_view();
+                auto pstep = track.make_physics_step_view();
+                particle.energy(units::MevEnergy{Eset});
+                pstep.reset_energy_deposition();
+                pstep.deposit_energy(units::MevEnergy{dep0});
+                sim.reset_step_limit({0.125, class_action(track, pclass)});
+                bool seen_cut = false;
+                real_type seen_step = -1;
+                detail::ElossApplier<ScriptedEloss> apply{
+                    ScriptedEloss{true, value, &seen_cut, &seen_step}};
+                apply(track);
+                os << "ok " << hex(particle.energy().value()) << ' '
+                   << hex(pstep.energy_deposition().value()) << ' '
+                   << static_cast<int>(sim.status()) << ' '
+                   << paction_class(track, sim.post_step_action()) << ' '
+                   << phys.has_at_rest() << ' ' << seen_cut << ' '
+                   << hex(seen_step);
+            }
             else if (kind == "interact" || kind == "tcut")
             {
                 // interact <cutmode> <gcut> <ecut> <pcut> <pid> <E> <dep0>
@@ -520,6 +570,82 @@ int main()
                    << paction_class(track, sim.post_step_action()) << ' '
                    << hex(sim.step_length()) << ' '
                    << (sim.along_step_action() ? 1 : 0);
+            }
+            else if (kind == "msclimit")
+            {
+                // msclimit <pid> <E> <range> <safety> <on_boundary> <phys_step>
+                //          <preset> <rf> <ri> <lmin> <u1> <u2>
+                // the REAL UrbanMscSafetyStepLimit and UrbanMscMinimalStepLimit functors
+                // (constructor + operator()) on a real P4 slot, random numbers replayed
+                unsigned pid;
+                is >> pid;
+                real_type E = rd(is), range = rd(is), safety = rd(is);
+                int onb;
+                is >> onb;
+                real_type phys_step = rd(is);
+                int preset;
+                is >> preset;
+                MscRange mr;
+                mr.range_factor = rd(is);
+                mr.range_init = rd(is);
+                mr.limit_min = rd(is);
+                real_type u1 = rd(is), u2 = rd(is);
+                static std::unique_ptr<Fixture<verif::P4>> p4;
+                static std::shared_ptr<UrbanMscParams> msc;
+                if (!p4)
+                {
+                    verif::ProblemConfig c;
+                    c.msc_emin = 1e-3;
+                    c.msc_xs = 5e-3;
+                    p4.reset(new Fixture<verif::P4>(c));
+                    msc = verif::make_urban_msc(
+                        *p4->core->particle(), *p4->core->material(), c);
+                }
+                auto state = p4->make_state(
+                    ParticleId{pid}, 1.0, {0.5, 0.25, -1}, {0, 0, 1});
+                CoreTrackView track(
+                    p4->core->host_ref(), state->ref(), ThreadId{0});
+                auto particle = track.make_particle_view();
+                auto phys = track.make_physics_view();
+                particle.energy(units::MevEnergy{E});
+                phys.dedx_range(range);
+                os << "ok";
+                for (int which = 0; which < 2; ++which)
+                {
+                    phys.msc_range(preset ? mr : MscRange{});
+                    celeritas::detail::UrbanMscHelper helper(
+                        msc->host_ref(), particle, phys);
+                    verif::ReplayEngine rng({u1, u2});
+                    real_type r;
+                    if (which == 0)
+                    {
+                        celeritas::detail::UrbanMscSafetyStepLimit calc(
+                            msc->host_ref(),
+                            helper,
+                            particle.energy(),
+                            &phys,
+                            phys.material_id(),
+                            onb != 0,
+                            safety,
+                            phys_step);
+                        r = calc(rng);
+                    }
+                    else
+                    {
+                        celeritas::detail::UrbanMscMinimalStepLimit calc(
+                            msc->host_ref(), helper, &phys, onb != 0, phys_step);
+                        r = calc(rng);
+                    }
+                    auto const& after = phys.msc_range();
+                    os << ' ' << hex(r) << ' ' << hex(after.range_factor) << ' '
+                       << hex(after.range_init) << ' ' << hex(after.limit_min)
+                       << ' ' << rng.consumed();
+                }
+                os << ' ' << hex(phys.scalars().safety_factor) << ' '
+                   << (phys.scalars().step_limit_algorithm
+                               == MscStepLimitAlgorithm::safety_plus
+                           ? 1
+                           : 0);
             }
             else if (kind == "steplimit")
             {
